@@ -108,8 +108,15 @@ func shape(s string) string {
 	s = strings.TrimPrefix(s, "panic in InitChain: ")
 	s = strings.TrimPrefix(s, "panic in InitGenesis: ")
 	s = reAddr.ReplaceAllString(s, "ADDR")
-	s = reDenom.ReplaceAllString(s, "DENOM")
-	s = reHex.ReplaceAllString(s, "HEX")
+	s = reDenom.ReplaceAllString(s, "<denom>")
+	s = reHex.ReplaceAllStringFunc(s, func(m string) string {
+		for _, c := range m {
+			if c < '0' || c > '9' {
+				return "HEX"
+			}
+		}
+		return "N" // a long decimal number
+	})
 	s = reNum.ReplaceAllString(s, "N")
 	s = strings.Join(strings.Fields(s), " ")
 	if len(s) > 60 {
